@@ -70,10 +70,10 @@ def run_scenario(sc):
                     OneNestForCrossNestedLogit(nest_param=1.5, dict_of_alpha={a: 0.5 for a in sorted(n)}) for n in sc['nests']))
                 e = models.logcnl(V, None, nests, 1)
             return float(e.get_value_c(prepare_ids=True))
-        out['models'] = audit.classify(rt.forked(go, timeout=30))
+        out['models'] = audit.classify(rt.forked(go, timeout=300))
         if sc['kind'] == 'nested':
-            out['models(same nest name)'] = audit.classify(rt.forked(go, 'same-name', timeout=30))
-            out['models(name clashing with a default one)'] = audit.classify(rt.forked(go, 'clash-with-default', timeout=30))
+            out['models(same nest name)'] = audit.classify(rt.forked(go, 'same-name', timeout=300))
+            out['models(name clashing with a default one)'] = audit.classify(rt.forked(go, 'clash-with-default', timeout=300))
     elif fam == 'data':
         def go():
             cell = {'num': 1.5, 'nan': float('nan'), 'str': 'abc'}
@@ -81,7 +81,7 @@ def run_scenario(sc):
             df = pd.DataFrame(rows, columns=['c1', 'c2']) if rows else pd.DataFrame({'c1': [], 'c2': []})
             d = db.Database('t', df)
             return True
-        out['Database'] = audit.classify(rt.forked(go, timeout=30))
+        out['Database'] = audit.classify(rt.forked(go, timeout=300))
 
         def go2():
             cell = {'num': 1.5, 'nan': float('nan'), 'str': 'abc'}
@@ -100,7 +100,7 @@ def run_scenario(sc):
             e = ex.Beta('b', 0.5, None, None, 0) * ex.Variable('x')
             e.get_value_and_derivatives(database=d, prepare_ids=True, gradient=sc['g'], hessian=sc['h'], bhhh=sc['b'])
             return True
-        out['get_value_and_derivatives'] = audit.classify(rt.forked(go, timeout=30))
+        out['get_value_and_derivatives'] = audit.classify(rt.forked(go, timeout=300))
     elif fam == 'choice':
         def mk():
             d = db.Database('t', pd.DataFrame({'ch': [float(v) for v in sc['col']], 'x': [1.0, 2.0, 3.0]}))
@@ -113,8 +113,8 @@ def run_scenario(sc):
         def go_v():
             d, e = mk()
             return [float(v) for v in e.get_value_c(database=d, prepare_ids=True)]
-        out['BIOGEME'] = audit.classify(rt.forked(go_b, timeout=30))
-        out['get_value_c'] = audit.classify(rt.forked(go_v, timeout=30))
+        out['BIOGEME'] = audit.classify(rt.forked(go_b, timeout=300))
+        out['get_value_c'] = audit.classify(rt.forked(go_v, timeout=300))
     elif fam == 'missing':
         M = 99999.0
         def mk():
@@ -150,8 +150,8 @@ def run_scenario(sc):
             if not np.isfinite(f) or abs(f - (clean + want)) > 1e-12:
                 raise AssertionError(f'likelihood {f} instead of {clean + want}')
             return f
-        out['get_value_c'] = audit.classify(rt.forked(go_v, timeout=30))
-        out['BIOGEME.calculate_likelihood'] = audit.classify(rt.forked(go_l, timeout=30))
+        out['get_value_c'] = audit.classify(rt.forked(go_v, timeout=300))
+        out['BIOGEME.calculate_likelihood'] = audit.classify(rt.forked(go_l, timeout=300))
     return out
 
 
